@@ -581,6 +581,13 @@ static int janetc_check_nil_form(Janet x, Janet *capture, uint32_t fun_tag) {
     JanetFunction *fun = janet_unwrap_function(op1);
     uint32_t tag = fun->def->flags & JANET_FUNCDEF_FLAG_TAG;
     if (tag != fun_tag) return 0;
+    /* A spliced operand changes the number of arguments, leave such calls alone */
+    for (int32_t i = 1; i < 3; i++) {
+        if (janet_checktype(tup[i], JANET_TUPLE)) {
+            JanetTuple arg = janet_unwrap_tuple(tup[i]);
+            if (janet_tuple_length(arg) > 0 && janet_symeq(arg[0], "splice")) return 0;
+        }
+    }
     if (janet_checktype(tup[1], JANET_NIL)) {
         *capture = tup[2];
         return 1;
